@@ -12,7 +12,7 @@ Theorem c07_acceptor_means : forall acked inflight rec,
   exists k, (k <= length inflight)%nat /\ outs_are rec (acked ++ firstn k inflight) = true.
 Proof. exact c07_ok_spec. Qed.
 
-Theorem c07_recovery_of_any_crash_image_partial : forall c, 0 < c_hdr c -> forall nfiles f disk next_id acc,
+Theorem c07_recovery_of_any_crash_image_partial : forall c, 0 < c_hdr c -> 0 < c_block c -> forall nfiles f disk next_id acc,
   Forall (dwf c) disk ->
   let '(acc', id') := scan_files c nfiles f disk next_id acc in
   rc_flag acc' = rc_flag acc /\
